@@ -95,14 +95,14 @@ RQ = [RU("cap2", depth=5), RU("ttl_tti", nkeys=2, depth=5), RU("cap_weight", nke
       RS("cap1", depth=5), RS("cap2_ttl_tti_w", weights=(1, 5), depth=4)]
 RT = [RU("ttl2", nkeys=2, depth=7), RU("tti2", nkeys=2, depth=7), RU("cap_unit", depth=6), RU("cap_weight", weights=(0, 1, 2, 5), depth=5), RU("expiry", depth=5, maxt=4),
       RU("cap_exp", nkeys=2, weights=(1, 2), depth=6), RU("cap_const", nkeys=3, weights=(0, 1, 2), depth=6),
-      RS("cap_unit", depth=6), RS("cap2_w", weights=(0, 1, 2, 5), depth=6), RS("cap1_ttl", depth=7),
+      RS("cap_unit", depth=6), RS("cap2_w", weights=(0, 1, 2, 5), depth=5), RS("cap1_ttl", depth=7),
       RS("cap2_tti", depth=7), RS("cap2_ttl_tti_w", weights=(1, 5), depth=6), RS("cap_const", weights=(1, 2), depth=6),
       RS("cap1", nkeys=3, depth=6)]
 VQ = [("unsync-small", 120, 40), ("unsync-mid", 30, 120), ("sync-small", 120, 40), ("sync-mid", 30, 120),
       ("sync-eager", 40, 60), ("sync-far", 150, 16), ("sync-burst", 200, 3), ("sync-stale", 600, 0), ("sync-flush", 14, 0), ("sync-grow", 100, 2),
       ("unsync-batch", 16, 0), ("sync-batch", 2, 0), ("unsync-exp", 500, 30), ("sync-exp", 120, 30)]
 VT = [("unsync-small", 2000, 60), ("unsync-mid", 400, 400), ("sync-small", 2000, 60), ("sync-mid", 400, 400),
-      ("sync-eager", 600, 120), ("sync-far", 6000, 20), ("sync-burst", 7000, 4), ("sync-stale", 5000, 0), ("sync-flush", 60, 0), ("sync-grow", 1200, 2),
+      ("sync-eager", 600, 120), ("sync-far", 6000, 20), ("sync-burst", 2500, 4), ("sync-stale", 5000, 0), ("sync-flush", 60, 0), ("sync-grow", 1200, 2),
       ("unsync-batch", 120, 0), ("sync-batch", 12, 0), ("unsync-exp", 4000, 40), ("sync-exp", 2000, 40)]
 
 QSLICES = {
@@ -415,7 +415,7 @@ def stage_r(ctx, runs):
         else:
             V.write_cfg(cfg, constants=constants_mc(c, [], emit=True, depth=c["depth"], period=1280),
                         constraints=["Depth"], view="View")
-        rc, outp, wall = V.run_tlc(ctx.wd, c["module"], cfg, workers=1, timeout=900, out=name + ".out")
+        rc, outp, wall = V.run_tlc(ctx.wd, c["module"], cfg, workers=1, timeout=2400, out=name + ".out")
         r = V.parse_mc(outp)
         if not r["ok"]:
             raise ToolError("emission run %s failed: %s" % (name, r["violated"] or r["error"]))
